@@ -378,7 +378,7 @@ class GpRegressor:
             # calculate the mean and covariance
             mean = A @ (K_qx * self.alpha).T
             mean += self.mean.spatial_gradient(pnt[0, :], self.mean_hyperpars)[:, None]
-            covariance = R - (Q.T @ Q)
+            covariance = diag(R) - (Q.T @ Q)
 
             # store the results for the current point
             mu_q.append(mean)
